@@ -54,6 +54,10 @@ func (o *Operations) Move(from string, to string) error {
 
 	headersToMove := []*config.Header{}
 	dbhdr, err := o.metadata.Metadata.GetHeader(context.Background(), from)
+	if err == sql.ErrNoRows {
+		// Directories that were indexed from a foreign archive with absolute member names keep their trailing slash
+		dbhdr, err = o.metadata.Metadata.GetHeader(context.Background(), strings.TrimSuffix(from, "/")+"/")
+	}
 	if err != nil {
 		if err == sql.ErrNoRows {
 			dbhdr, err = o.metadata.Metadata.GetHeaderByLinkname(context.Background(), from)
@@ -94,7 +98,7 @@ func (o *Operations) Move(from string, to string) error {
 			return err
 		}
 
-		hdr.Size = 0 // Don't try to seek after the record
+		hdr.Size = 0               // Don't try to seek after the record
 		hdr.Format = tar.FormatPAX // The entry might come from a USTAR or GNU archive, which can't carry the records below
 		hdr.Name = path.Join(to, strings.TrimPrefix(strings.TrimPrefix(dbhdr.Name, "/"), strings.TrimPrefix(from, "/")))
 		hdr.PAXRecords[records.STFSRecordVersion] = records.STFSRecordVersion1
